@@ -99,6 +99,8 @@ func initAllowed(path string) bool {
 		return true // plain table initialisers; interpreted so that gomidi's serialiser runs in the engine
 	case "unicode/utf8":
 		return true // the two decoding tables; the package is interpreted on concrete and symbolic bytes
+	case "bytes":
+		return true // asciiSpace table and three error values; bytes.TrimSpace and friends are interpreted
 	}
 	return false
 }
